@@ -276,3 +276,130 @@ func ZZ_C06_H2() {
 		zz.Assert("param-values-are-matched-substrings", same)
 	}
 }
+
+func zzHexVal(c byte) int {
+	switch {
+	case c >= '0' && c <= '9':
+		return int(c - '0')
+	case c >= 'a' && c <= 'f':
+		return int(c-'a') + 10
+	case c >= 'A' && c <= 'F':
+		return int(c-'A') + 10
+	}
+	return -1
+}
+
+// url.QueryUnescape's rule; ok=false on a malformed escape (the router then keeps the raw text)
+func zzRefQueryUnescape(s string) (string, bool) {
+	var out []byte
+	for i := 0; i < len(s); i++ {
+		switch s[i] {
+		case '%':
+			if i+2 >= len(s) && !(i+2 < len(s)) {
+				return "", false
+			}
+			h1, h2 := zzHexVal(s[i+1]), zzHexVal(s[i+2])
+			if h1 < 0 || h2 < 0 {
+				return "", false
+			}
+			out = append(out, byte(h1<<4|h2))
+			i += 2
+		case '+':
+			out = append(out, ' ')
+		default:
+			out = append(out, s[i])
+		}
+	}
+	return string(out), true
+}
+
+var zzAlphaH3 = func() (t [256]bool) {
+	for _, c := range []byte("ab/%41+xu") {
+		t[c] = true
+	}
+	return
+}()
+
+var zzRouteSetsH3 = [][]string{
+	{"/:p", "/:p/b", "/*w"},
+	{"/a/:p/c", "/a/b/:q", "/a/*w"},
+	{"/u/:id", "/u/:id/x", "/:y/z"},
+}
+
+// ZZ_C06_H3: dispatch through Engine.ServeHTTP (not the bare tree), so that the engine's choice
+// of the path to match and of unescaping is part of the check. The request target has a
+// symbolic path over an alphabet with escapes ('%', hex digits, '+'). With default options the
+// decoded URI path is matched and parameters are its substrings, unchanged; with UseRawPath the
+// raw path is matched and (UnescapePathValues) each value is the query-unescaped raw substring.
+// In both modes the route is the one the priority rule selects, backtracking included.
+func ZZ_C06_H3() {
+	set := zzRouteSetsH3[zz.Choose("set", len(zzRouteSetsH3))]
+	useRaw := zz.Choose("useRawPath", 2) == 1
+	e := zzNewEngine()
+	e.options.UnescapePathValues = true // the documented default
+	e.options.UseRawPath = useRaw
+	hit := -1
+	var got []string
+	fullPath := ""
+	for j, r := range set {
+		rid := j
+		e.GET(r, func(c context.Context, ctx *app.RequestContext) {
+			hit = rid
+			fullPath = ctx.FullPath()
+			for _, p := range ctx.Params {
+				got = append(got, p.Value)
+			}
+		})
+	}
+	n := zz.Range("n", 1, zz.Param("N", 5))
+	tail := zz.Bytes("path", n)
+	for _, c := range tail {
+		zz.Assume(zzAlphaH3[c]) // one table look-up: no case split in the harness
+	}
+	ctx := app.NewContext(0)
+	ctx.Request.SetHost("h")
+	ctx.Request.Header.SetMethod("GET")
+	ctx.Request.SetRequestURI("/" + string(tail))
+	e.ServeHTTP(context.Background(), ctx)
+	// the path the engine is documented to match
+	var path string
+	if useRaw {
+		path = string(ctx.Request.URI().PathOriginal())
+	} else {
+		path = string(ctx.Request.URI().Path())
+	}
+	var cands []zzCand
+	for j, s := range set {
+		cands = append(cands, zzCand{j, s, nil})
+	}
+	wi, wv := zzRefMatch(cands, path)
+	zz.Cover("reached-assert", true)
+	zz.Cover("matched-with-param", wi >= 0 && len(wv) > 0)
+	zz.Cover("raw-path-with-escape", useRaw && wi >= 0 && len(path) != len(string(ctx.Request.URI().Path())))
+	if wi < 0 {
+		zz.Assert("no-route-handler-when-no-pattern-matches", hit == -1)
+		return
+	}
+	zz.Assert("route-chosen-by-priority-rule", hit == wi)
+	if hit != wi {
+		return
+	}
+	zz.Assert("full-path-is-registered-pattern", fullPath == set[wi])
+	zz.Assert("param-count", len(got) == len(wv))
+	if len(got) != len(wv) {
+		return
+	}
+	same := true
+	for k := range wv {
+		want := wv[k]
+		if useRaw {
+			if u, ok := zzRefQueryUnescape(want); ok {
+				want = u
+			}
+		}
+		if got[k] != want {
+			same = false
+		}
+	}
+	zz.Assert("param-values-are-the-matched-substrings", same)
+}
